@@ -584,10 +584,63 @@ Definition wrap_ok (w : Z) (l : list pchar) : bool :=
   | _ :: before => (line_width before <? w) || (zlen before =? 0)
   end.
 
+(* "the pager presents every line of its text".  The logical lines of a text are the runs between
+   its newline characters (a character whose grapheme contains '\n': "\n", "\r\n"); what follows the
+   last newline is a line only when it is not empty. *)
+Fixpoint logical_lines (cs : list pchar) : list (list pchar) :=
+  match cs with
+  | [] => []
+  | c :: t =>
+      if is_nl c then [] :: logical_lines t
+      else match logical_lines t with
+           | [] => [[c]]
+           | l :: ls => (c :: l) :: ls
+           end
+  end.
+
+(* rows present a text: the rows split into consecutive non-empty groups, one group per logical
+   line in order, the rows of a group concatenated are the line (so an empty line has an empty row
+   of its own); only empty rows may follow the last group *)
+Definition presented (cs : list pchar) (rows : list (list pchar)) : Prop :=
+  exists groups extra,
+    rows = concat groups ++ extra /\
+    Forall2 (fun l g => g <> [] /\ concat g = l) (logical_lines cs) groups /\
+    Forall (fun r => r = []) extra.
+
+(* the decision procedure evaluated on observations.  [strip_row r cs]: the row r is a prefix of cs
+   and holds no newline character; answers the rest of the text. *)
+Fixpoint strip_row (r cs : list pchar) : option (list pchar) :=
+  match r with
+  | [] => Some cs
+  | x :: r' =>
+      match cs with
+      | c :: t => if negb (is_nl c) && pchar_eqb x c then strip_row r' t else None
+      | [] => None
+      end
+  end.
+
+Definition row_empty (r : list pchar) : bool := match r with [] => true | _ => false end.
+
+(* [cs]: the text from the current position inside (or at the start of) a logical line.  Every row
+   is cut off the text; a line ends when the rest starts with a newline (which is then consumed: the
+   next row belongs to the next line) or is empty (then only empty rows may follow); when the rows
+   run out no text may be left. *)
+Fixpoint presents (cs : list pchar) (rows : list (list pchar)) : bool :=
+  match rows with
+  | [] => match cs with [] => true | _ => false end
+  | r :: rows' =>
+      match strip_row r cs with
+      | None => false
+      | Some [] => forallb row_empty rows'
+      | Some (c :: t) => if is_nl c then presents t rows' else presents (c :: t) rows'
+      end
+  end.
+
 Definition lines_ok (w : Z) (cs : list pchar) (lines : list (list pchar)) : bool :=
   list_eqb pchar_eqb (concat lines) (filter (fun c => negb (is_nl c)) cs) &&
   forallb (wrap_ok w) lines &&
-  forallb (fun l => forallb (fun c => negb (is_nl c)) l) lines.
+  forallb (fun l => forallb (fun c => negb (is_nl c)) l) lines &&
+  presents cs lines.
 
 (* [fresh]: the lines were laid out for the current text and width *)
 Fixpoint pager_trace_ok (cs : list pchar) (fresh : bool) (preoff prew : Z) (tr : list (pop * pobs)) : bool :=
